@@ -26,6 +26,7 @@ from . import families as F
 
 ID = "C19"
 HEAVY = True
+NONLINEAR = "uf"      # the plot savers take np.std of the (symbolic) gap matrix: keep square / square root uninterpreted
 BUDGET_S = {"quick": 200, "thorough": 1500}
 MAX_TASK_S = {"quick": 90, "thorough": 600}
 MAX_PATHS = 5000
@@ -102,17 +103,41 @@ class SymJson:
         return _json.load(fp, *a, object_hook=self._hook(object_hook), **kw)
 
 
+class _Anything:
+    """Absorbs any matplotlib call."""
+
+    def __call__(self, *a, **k):
+        return _Anything()
+
+    def __getattr__(self, name):
+        return _Anything()
+
+    def __iter__(self):
+        return iter((_Anything(), _Anything()))
+
+
+class _PltStub(_Anything):
+    """matplotlib.pyplot inside run/save.py: drawing is a no-op, savefig creates the (empty) picture file - the plot savers' own
+    path / directory logic and their side effects on the results folder stay real."""
+
+    def savefig(self, fname, *a, **k):
+        with open(os.fspath(fname), "wb"):
+            pass
+
+    def subplots(self, *a, **k):
+        return _Anything(), _Anything()
+
+
 def _install(pk):
-    """Symbolic world: placeholder codec inside run/save.py.  Both worlds: plot savers off."""
+    """Symbolic world: placeholder codec inside run/save.py.  Both worlds: pyplot replaced by the stub above."""
     sv = pk.run_save
     if pk.symbolic and not isinstance(sv.json, SymJson):
         sv.json = SymJson()
         from symx import arrays
         arrays.TOLIST_SYMBOLIC_OK = True
     _TABLE.clear()
-    for k in list(sv.SAVERS):
-        if k != "data.json":
-            sv.SAVERS[k] = lambda path, unique_name, output: None
+    if not isinstance(sv.plt, _PltStub):
+        sv.plt = _PltStub()
 
 
 # ------------------------------------------------------------------------------------------------ payloads
@@ -161,12 +186,16 @@ def _stringified(meta):
     return out
 
 
-def _matrix(pk, inp, tag, shape, nan_positions):
-    """Object array of fresh reals with NaN at the listed flat positions (concrete world: float64 array)."""
+def _matrix(pk, inp, tag, shape, nan_positions, ids=False):
+    """Object array of fresh reals with NaN at the listed flat positions (concrete world: float64 array).
+    ids=True: concrete coalition ids instead of free reals (the plot savers turn action entries into integers)."""
     import numpy as np
     size = 1
     for s in shape:
         size *= s
+    if ids:
+        rnd = random.Random(f"ids/{tag}/{shape}")
+        return np.array([float("nan") if k in nan_positions else float(rnd.randint(3, 14)) for k in range(size)], dtype=float).reshape(shape)
     flat = []
     for k in range(size):
         flat.append(float("nan") if k in nan_positions else inp.real(f"{tag}_{k}"))
@@ -199,15 +228,16 @@ PAYLOADS = {
     "2x5": ((2, 5), (), (1, 5), ()),
     "best3d": ((3, 2), (), (3, 2, 2), (0, 1, 2, 3, 5, 7)),
     "col": ((5, 1), (4,), (4, 1), (3,)),
-    "allnan-actions": ((2, 2), (), (1, 2), (0, 1)),
+    # (an action matrix that is NaN everywhere would be a run of zero steps - outside the property, and the picture saver rejects it)
+    "mostly-nan-actions": ((3, 2), (), (2, 2), (1, 2, 3)),
     "wide": ((2, 9), (17,), (1, 9), (8,)),
 }
 
 
-def _output(pk, inp, tag, payload, meta):
+def _output(pk, inp, tag, payload, meta, ids=False):
     ds, dn, as_, an = PAYLOADS[payload]
     data = _matrix(pk, inp, f"{tag}d", ds, set(dn))
-    actions = _matrix(pk, inp, f"{tag}a", as_, set(an))
+    actions = _matrix(pk, inp, f"{tag}a", as_, set(an), ids=ids)
     return pk.run_save.Output(data, actions, Namespace(**META[meta]())), data, actions
 
 
@@ -230,6 +260,12 @@ def tasks(tier, seed):
         out.append({"key": f"roundtrip/{p}/{m}/{via}/{loader}", "kind": "roundtrip", "payload": p, "meta": m, "via": via, "loader": loader})
     for hist in (0, 1, 2):
         out.append({"key": f"sequence/history{hist}", "kind": "sequence", "history": hist, "saves": 3 if tier == "quick" else 4, "pool": 3})
+    # the same through save() (all savers, real side-effect files in the results folder) with run names that contain dots, differ only
+    # after the last dot, or are prefixes of one another
+    for hist, names in ((0, ["sweep_gamma0.5", "sweep_gamma0.25", "sweep_gamma0"]), (1, ["run.v1.0", "run.v1.1", "old0"]),
+                        (2, ["2026-10-01T10:00:00.000001", "2026-10-01T10:00:00.000002", "2026-10-01T10:00:00"])):
+        out.append({"key": f"sequence-save/history{hist}", "kind": "sequence", "history": hist, "saves": 3 if tier == "quick" else 4,
+                    "pool": 3, "via": "save", "names": names})
     prods = [("solve", "largest", 3), ("solve", "greedy", 3), ("greedy", None, 3), ("best_states", None, 3)]
     if tier == "thorough":
         prods += [("solve", "largest", 4)]
@@ -274,7 +310,7 @@ def _load(pk, path, name, loader):
 
 def _roundtrip(pk, params, inp, root):
     sv = pk.run_save
-    out0, data, actions = _output(pk, inp, "p", params["payload"], params["meta"])
+    out0, data, actions = _output(pk, inp, "p", params["payload"], params["meta"], ids=params["via"] == "save")
     if params["via"] == "save":
         sv.save(Path(root) / "model", "run-A", out0)
         path = os.path.join(root, "model", "data.json")
@@ -288,30 +324,43 @@ def _roundtrip(pk, params, inp, root):
 
 def _sequence(pk, params, inp, root):
     sv = pk.run_save
-    path = os.path.join(root, "data.json")
-    pays = ["3x2", "4x3pad", "1x1", "2x5", "col", "best3d", "wide"]
+    via_save = params.get("via") == "save"
+    path = os.path.join(root, "model", "data.json") if via_save else os.path.join(root, "data.json")
+
+    def do_save(name, o):
+        """Returns the exception type name if the save raised (FileExistsError from the picture folder of an existing run is the
+        package's pinned behaviour for a repeated name through save(); it must then have changed nothing)."""
+        try:
+            if via_save:
+                sv.save(Path(root) / "model", name, o)
+            else:
+                sv.save_json(Path(path), name, o)
+        except FileExistsError:
+            return "FileExistsError"
+        return None
+    pays = ["3x2", "4x3pad", "1x1", "2x5", "col", "best3d", "wide"] if not via_save else ["3x2", "2x5", "1x1", "best3d", "mostly-nan-actions", "4x3pad", "wide"]
     metas = list(META)
     ref = {}           # name -> (data entries, actions entries, meta ref) of the FIRST save under that name
     steps = []
     for h in range(params["history"]):
-        o, d, a = _output(pk, inp, f"h{h}", pays[h], metas[h % len(metas)])
-        sv.save_json(Path(path), f"old{h}", o)
+        o, d, a = _output(pk, inp, f"h{h}", pays[h], metas[h % len(metas)], ids=via_save)
+        do_save(f"old{h}", o)
         ref[f"old{h}"] = {"data": _entries(d), "actions": _entries(a), "meta_ref": _stringified(META[metas[h % len(metas)]]())}
-    pool = [f"name{i}" for i in range(params["pool"])]
-    if params["history"]:
+    pool = list(params.get("names") or [f"name{i}" for i in range(params["pool"])])
+    if params["history"] and not params.get("names"):
         pool[-1] = "old0"          # one pool name collides with an earlier run
     for i in range(params["saves"]):
         name = pool[inp.choose(len(pool), f"name-of-save-{i}")]
-        o, d, a = _output(pk, inp, f"s{i}", pays[(i + 2) % len(pays)], metas[(i + 1) % len(metas)])
+        o, d, a = _output(pk, inp, f"s{i}", pays[(i + 2) % len(pays)], metas[(i + 1) % len(metas)], ids=via_save)
         before_bytes = open(path, "rb").read() if os.path.exists(path) else None
         before_raw = _read_raw(pk, path) or {}
-        sv.save_json(Path(path), name, o)
+        raised = do_save(name, o)
         after_bytes = open(path, "rb").read() if os.path.exists(path) else None
         after_raw = _read_raw(pk, path) or {}
         existed = name in ref
         if not existed:
             ref[name] = {"data": _entries(d), "actions": _entries(a), "meta_ref": _stringified(META[metas[(i + 1) % len(metas)]]())}
-        steps.append({"name": name, "existed": existed, "bytes_unchanged": before_bytes == after_bytes,
+        steps.append({"name": name, "existed": existed, "raised": raised, "bytes_unchanged": before_bytes == after_bytes,
                       "names_after": sorted(after_raw.keys()), "names_expected": sorted(ref.keys()),
                       "earlier_raw_before": {k: before_raw[k] for k in sorted(before_raw)},
                       "earlier_raw_after": {k: after_raw.get(k) for k in sorted(before_raw)}})
@@ -320,7 +369,9 @@ def _sequence(pk, params, inp, root):
     for nm in sorted(ref):
         o = outs.get(nm)
         final[nm] = None if o is None else {"data": _entries(o.data), "actions": _entries(o.actions), "meta": dict(vars(o.parsed_args))}
-    return {"steps": steps, "final": final, "ref": ref, "leftovers": sorted(x for x in os.listdir(root) if x != "data.json")}
+    folder = os.path.dirname(path)
+    return {"steps": steps, "final": final, "ref": ref,
+            "leftovers": sorted(x for x in os.listdir(folder) if x != "data.json" and not (via_save and x in ("data_plots", "chosen_coalitions")))}
 
 
 class _CounterRng:
@@ -474,6 +525,8 @@ def claims(params, inp, out, lg):
         cl.append((f"names-are-first-wins-union:save={i}", st["names_after"] == st["names_expected"], "C19/sequence/names"))
         if st["existed"]:
             cl.append((f"existing-name-changes-nothing:save={i}", st["bytes_unchanged"] is True, "C19/sequence/existing-name-overwritten"))
+        else:
+            cl.append((f"new-name-is-saved:save={i}", st["raised"] is None and st["name"] in st["names_after"], "C19/sequence/new-name-not-saved"))
         cl.append((f"earlier-entries-unchanged:save={i}", _raw_equal(lg, st["earlier_raw_before"], st["earlier_raw_after"]),
                    "C19/sequence/earlier-entry-changed"))
     for nm, ref in out["ref"].items():
